@@ -5,11 +5,12 @@ TIER=${TIER:-quick}
 W=${W:-/tmp/repo2}
 for s in "$@"; do
   S=/verif/seeded/$s
-  P=${s%%-*}
+  P=${PROP:-${s%%-*}}
+  SUF=""; [ -n "$PROP" ] && SUF="_$PROP"
   rm -rf $W; git -C /repo worktree prune; git -C /repo worktree add -q --detach $W HEAD || exit 2
-  if ! git -C $W apply $S/patch.diff 2>$S/trial_apply.err; then echo "$s: PATCH DOES NOT APPLY" | tee $S/trial_$TIER.log; git -C /repo worktree remove --force $W; continue; fi
-  (cd /verif && VERIF_REPO=$W VERIF_EVIDENCE_DIR=/tmp/trial_evidence ./check $P --tier $TIER > $S/trial_$TIER.full.log 2>&1; echo "exit=$?" >> $S/trial_$TIER.full.log)
-  grep -E "^(VIOLATION|  fingerprint|SUMMARY|ENGINE|exit=)" $S/trial_$TIER.full.log | cut -c1-250 > $S/trial_$TIER.log
-  echo "== $s: $(grep -c '^VIOLATION' $S/trial_$TIER.log) violations; $(grep '^exit=' $S/trial_$TIER.log)"
+  if ! git -C $W apply $S/patch.diff 2>$S/trial_apply.err; then echo "$s: PATCH DOES NOT APPLY" | tee $S/trial_$TIER$SUF.log; git -C /repo worktree remove --force $W; continue; fi
+  (cd /verif && VERIF_REPO=$W VERIF_EVIDENCE_DIR=/tmp/trial_evidence ./check $P --tier $TIER > $S/trial_$TIER$SUF.full.log 2>&1; echo "exit=$?" >> $S/trial_$TIER$SUF.full.log)
+  grep -E "^(VIOLATION|  fingerprint|SUMMARY|ENGINE|exit=)" $S/trial_$TIER$SUF.full.log | cut -c1-250 > $S/trial_$TIER$SUF.log
+  echo "== $s: $(grep -c '^VIOLATION' $S/trial_$TIER$SUF.log) violations; $(grep '^exit=' $S/trial_$TIER$SUF.log)"
   git -C /repo worktree remove --force $W
 done
